@@ -637,8 +637,10 @@ func (p *Parser) parseTernaryExpression(condition ast.Expression) ast.Expression
 		Token:     p.curToken,
 		Condition: condition,
 	}
-	p.nextToken() //skip the '?'
+	// Both arms are parsed with the binding power of the '?' itself,
+	// whatever token an arm happens to begin with.
 	precedence := p.curPrecedence()
+	p.nextToken() //skip the '?'
 	expression.IfTrue = p.parseExpression(precedence)
 
 	// error?
